@@ -196,6 +196,8 @@ def eval_expr(t, env=None, log=None):
         return t[1]
     if k == "var":
         return env[t[1]]
+    if k == "src":
+        return t[2]            # ("src", tokens, value): a conversion call whose value is known (decimal(3), floor(7.5) ...)
     if k == "tick":
         # tick(k, e) is an ordinary call: the argument is evaluated first, then k is logged
         v = eval_expr(t[2], env, log)
@@ -267,6 +269,9 @@ def eval_expr(t, env=None, log=None):
 # < multiplicative 6 < unary 7 < membership 8 < primary 9
 # ---------------------------------------------------------------------------
 
+TYPE_WORDS = {"int", "decimal", "string", "boolean", "pattern", "date", "list", "set", "map", "object", "node", "func"}
+
+
 def level(t):
     k = t[0]
     if k == "or":
@@ -299,6 +304,10 @@ def render(t, lit, full=False, min_level=0):
         s = lit(t[1])
     elif k == "var":
         s = t[1]
+    elif k == "src":
+        s = "".join(t[1])
+        if t[1][0] in TYPE_WORDS:
+            s = "(" + s + ")"        # `x is int(...)` would otherwise be read as the type predicate `x is int`
     elif k == "tick":
         s = "tick(%d, %s)" % (t[1], render(t[2], lit, full, 0))
         lv = 9
@@ -312,6 +321,7 @@ def render(t, lit, full=False, min_level=0):
         parts = [sub(t[1][0], 5)]
         for op, e in zip(t[2], t[1][1:]):
             parts.append(op)
+            # `x is int(...)` would be read as the type predicate `x is int`: parenthesise call operands of is
             parts.append(sub(e, 5))
         s = " ".join(parts)
     elif k == "bin":
@@ -329,7 +339,7 @@ def render(t, lit, full=False, min_level=0):
         s = sub(t[1], 9) + " not in " + sub(t[2], 9)
     else:
         raise ValueError(k)
-    if lv < min_level or (full and k not in ("lit", "var", "tick")):
+    if lv < min_level or (full and k not in ("lit", "var", "tick", "src")):
         return "(" + s + ")"
     return s
 
